@@ -154,11 +154,20 @@ func (z ConstReader) Read(p []byte) (int, error) {
 
 // BytesReader replays a fixed byte string, then zeros.
 type BytesReader struct {
-	B []byte
-	i int
+	B     []byte
+	i     int
+	Chunk int
 }
 
+// Chunk > 0: every Read returns at most that many bytes (a pipe, a socket, a small buffered reader): callers must use io.ReadFull.
 func (b *BytesReader) Read(p []byte) (int, error) {
+	if b.Chunk > 0 && len(p) > b.Chunk {
+		p = p[:b.Chunk]
+	}
+	return b.read(p)
+}
+
+func (b *BytesReader) read(p []byte) (int, error) {
 	for i := range p {
 		if b.i < len(b.B) {
 			p[i] = b.B[b.i]
